@@ -534,7 +534,10 @@ class Polyhedron(Shape3D):
         if centered:
             simplices -= self.center
 
-        volumes = np.abs(np.linalg.det(simplices) / 6)
+        # Signed volumes of the tetrahedra spanned by the surface triangles and the
+        # reference point: they must keep their sign so that the parts of a
+        # non-star-shaped solid that are swept twice cancel.
+        volumes = np.linalg.det(simplices) / 6
 
         def triangle_integrate(f):
             r"""Integrate f over the simplices.
